@@ -139,6 +139,20 @@ def run_model(spec, cfg, workers=16, timeout=1800, simulate=None, depth=None, se
                 wall_s=dt, coverage=cov, spec=spec, cfg=cfg, dump=dumptext)
 
 
+def json_lines(out):
+    """JSON values printed by PrintT(ToJson(x)) (one TLA+ string per line), de-duplicated."""
+    seen = {}
+    for line in out.splitlines():
+        line = line.strip()
+        if len(line) > 3 and line[0] == '"' and line[-1] == '"' and line[1] in "[{":
+            try:
+                s = json.loads(line)
+                seen.setdefault(s, None)
+            except Exception:
+                continue
+    return [json.loads(s) for s in seen]
+
+
 _RE_COV = re.compile(r"<(\w+) line \d+, col \d+ to line \d+, col \d+ of module (\w+)>: (\d+):(\d+)")
 
 
